@@ -1,0 +1,10 @@
+//go:build verif
+
+package mp4
+
+// Verification hooks for property C06 (add-only, compiled only with -tags verif).
+
+// VerifC06DecryptSamplesInPlace calls decryptSamplesInPlace.
+func VerifC06DecryptSamplesInPlace(schemeType string, samples []FullSample, key []byte, tenc *TencBox, senc *SencBox) error {
+	return decryptSamplesInPlace(schemeType, samples, key, tenc, senc)
+}
